@@ -242,7 +242,7 @@ CLAUSES = [  # (key in the job result, what, needs-rational)
 
 
 def run(ctx):
-    broken = common.proof_stage(ctx, ["SoxrModel.Properties.C12"], "C12", exes=(), gens=())
+    broken = common.proof_stage(ctx, ["SoxrModel.Properties.C12", "SoxrModel.Properties.C12Engine"], ["C12", "C12Engine"], exes=(), gens=())
     S.harness()
     S.set_active("C12")
     rng = ctx.rng
